@@ -613,7 +613,8 @@ func c18NoPeers(p *Prog, r *Report) {
 		for _, e := range rr.Ev("call", "req.(*context).cancel") {
 			has1, has2 := false, false
 			for _, g := range e.Guard {
-				if strings.HasSuffix(g, ".failNoPeers") {
+				// the flag of the very context that is cancelled (each context has its own)
+				if len(e.Args) > 0 && g == e.Args[0]+".failNoPeers" {
 					has1 = true
 				}
 				if strings.HasPrefix(g, "len(") && strings.HasSuffix(g, ".pipes) == 0") {
